@@ -310,6 +310,27 @@ def run(ctx):
             viol("C2Http.iter_recover_http(keys=)", "session_keys_iv", {"default_iv": iv == b"abcdefghijklmnop", "direction": "task", "got": str(o)[:200]})
         ctx.count_distinct(("session_iv", iv == b"abcdefghijklmnop", len(cbs)))
 
+    # HMAC keys of other lengths than 16 (the packet functions take any): the signature is HMAC-SHA256 under the WHOLE key, and a key that
+    # differs in any byte - also behind the sixteenth - is another key
+    for klen in (1, 15, 16, 17, 32, 64, 65, 100):
+        hk_ = rng.randbytes(klen)
+        ak_ = rng.randbytes(16)
+        pt_ = rng.randbytes(rng.choice([0, 5, 16, 40]))
+        e_ = core.outcome(lambda: c2.encrypt_packet(pt_, aes_key=ak_, hmac_key=hk_))
+        ctx.evaluations += 1
+        if e_[0] != "ok" or bytes(e_[1].signature) != ref_sig(bytes(e_[1].ciphertext), hk_):
+            viol("encrypt_packet", "signature_under_whole_key", {"hmac_key_len": klen, "got": str(e_)[:120]})
+            continue
+        for pos_ in sorted({0, klen // 2, klen - 1}):
+            other_ = hk_[:pos_] + bytes([hk_[pos_] ^ 0x01]) + hk_[pos_ + 1:]
+            d_ = core.outcome(lambda: c2.decrypt_packet(e_[1], aes_key=ak_, hmac_key=other_, verify=True))
+            ctx.evaluations += 1
+            if d_[0] != "ValueError":
+                viol("decrypt_packet", "changed_hmac_key_accepted", {"hmac_key_len": klen, "changed_byte": pos_, "got": str(d_)[:120]})
+        d_ = core.outcome(lambda: c2.decrypt_packet(e_[1], aes_key=ak_, hmac_key=hk_, verify=True))
+        if d_[0] != "ok" or bytes(d_[1])[:len(pt_)] != pt_:
+            viol("decrypt_packet", "round_trip_long_hmac_key", {"hmac_key_len": klen, "got": str(d_)[:120]})
+        ctx.count_distinct(("hmac_key_len", klen))
     # a message with several packets, keys of the call against keys of the decoder: PacketStream.tla
     from vt.checks import xpacketstream
 
